@@ -88,3 +88,104 @@ def W.shallow (w : W) (t t2 a2 : Nat) : Option W := do
   some (w.setTree t2 a2 tr)
 
 end RbW
+
+namespace RbW
+open RbM
+
+theorem find_filter_ne_gen {β : Type} (l : List (Nat × β)) (k k' : Nat) (e : ¬ k = k') :
+    (l.filter (fun x => decide (x.1 ≠ k))).find? (fun x => decide (x.1 = k')) = l.find? (fun x => decide (x.1 = k')) := by
+  induction l with
+  | nil => rfl
+  | cons a l ih =>
+    by_cases h1 : a.1 = k
+    · have hd : decide (a.1 ≠ k) = false := by simp [h1]
+      have h2 : decide (a.1 = k') = false := by
+        simp only [decide_eq_false_iff_not]; intro h3; exact e (h1 ▸ h3)
+      rw [List.filter_cons, hd]
+      simp only [Bool.false_eq_true, if_false, List.find?_cons, h2]
+      exact ih
+    · have hd : decide (a.1 ≠ k) = true := by simp [h1]
+      rw [List.filter_cons, hd]
+      simp only [if_true, List.find?_cons]
+      rw [ih]
+
+theorem tree_setTree_ne (w : W) (t t2 a : Nat) (x : Tree) (h : t2 ≠ t) : (w.setTree t a x).tree t2 = w.tree t2 := by
+  unfold W.tree W.setTree
+  simp only
+  rw [List.find?_cons]
+  have : ¬ t = t2 := fun e => h e.symm
+  simp only [this, decide_false]
+  rw [find_filter_ne_gen w.trees t t2 this]
+
+theorem arena_setArena_ne (w : W) (a a2 : Nat) (x : Arena) (h : a2 ≠ a) : (w.setArena a x).arena a2 = w.arena a2 := by
+  unfold W.arena W.setArena
+  simp only
+  rw [List.find?_cons]
+  have : ¬ a = a2 := fun e => h e.symm
+  simp only [this, decide_false]
+  rw [find_filter_ne_gen w.arenas a a2 this]
+
+theorem tree_setArena (w : W) (a t : Nat) (x : Arena) : (w.setArena a x).tree t = w.tree t := rfl
+theorem arena_setTree (w : W) (t a a2 : Nat) (x : Tree) : (w.setTree t a x).arena a2 = w.arena a2 := rfl
+
+/-- **C06 / C08 (independence)**: an insertion into tree `t` changes neither any other tree (whatever allocator it lives
+    on — in particular a clone on a cloned allocator) nor any allocator other than the one `t` lives on -/
+theorem insert_frame (w w' : W) (t k v id : Nat) (ok : Bool) (h : w.insert t k v id = some (w', ok)) :
+    (∀ t2, t2 ≠ t → w'.tree t2 = w.tree t2) ∧
+    (∀ a tr, w.tree t = some (a, tr) → ∀ a2, a2 ≠ a → w'.arena a2 = w.arena a2) := by
+  unfold W.insert at h
+  cases ht : w.tree t with
+  | none => simp [ht] at h
+  | some p =>
+    obtain ⟨a, tr⟩ := p
+    cases har : w.arena a with
+    | none => simp [ht, har] at h
+    | some ar =>
+      simp only [ht, har, Option.bind_eq_bind, Option.bind_some] at h
+      split at h
+      · cases hm : ar.malloc id with
+        | none => simp [hm] at h
+        | some ar' =>
+          simp only [hm, Option.bind_some, Option.some.injEq, Prod.mk.injEq] at h
+          obtain ⟨rfl, _⟩ := h
+          refine ⟨fun t2 h2 => ?_, fun a0 tr0 h0 a2 h2 => ?_⟩
+          · rw [tree_setTree_ne _ _ _ _ _ h2, tree_setArena]
+          · simp only [Option.some.injEq, Prod.mk.injEq] at h0
+            obtain ⟨rfl, _⟩ := h0
+            rw [arena_setTree, arena_setArena_ne _ _ _ _ h2]
+      · split at h
+        · simp only [Option.some.injEq, Prod.mk.injEq] at h
+          obtain ⟨rfl, _⟩ := h
+          exact ⟨fun _ _ => rfl, fun _ _ _ _ _ => rfl⟩
+        · simp at h
+
+/-- the same for deletions -/
+theorem delete_frame (w w' : W) (t k : Nat) (ok : Bool) (h : w.delete t k = some (w', ok)) :
+    (∀ t2, t2 ≠ t → w'.tree t2 = w.tree t2) ∧
+    (∀ a tr, w.tree t = some (a, tr) → ∀ a2, a2 ≠ a → w'.arena a2 = w.arena a2) := by
+  unfold W.delete at h
+  cases ht : w.tree t with
+  | none => simp [ht] at h
+  | some p =>
+    obtain ⟨a, tr⟩ := p
+    cases har : w.arena a with
+    | none => simp [ht, har] at h
+    | some ar =>
+      simp only [ht, har, Option.bind_eq_bind, Option.bind_some] at h
+      split at h
+      · rename_i n hn
+        cases hf : ar.free n with
+        | none => simp [hf] at h
+        | some ar' =>
+          simp only [hf, Option.bind_some, Option.some.injEq, Prod.mk.injEq] at h
+          obtain ⟨rfl, _⟩ := h
+          refine ⟨fun t2 h2 => ?_, fun a0 tr0 h0 a2 h2 => ?_⟩
+          · rw [tree_setTree_ne _ _ _ _ _ h2, tree_setArena]
+          · simp only [Option.some.injEq, Prod.mk.injEq] at h0
+            obtain ⟨rfl, _⟩ := h0
+            rw [arena_setTree, arena_setArena_ne _ _ _ _ h2]
+      · simp only [Option.some.injEq, Prod.mk.injEq] at h
+        obtain ⟨rfl, _⟩ := h
+        exact ⟨fun _ _ => rfl, fun _ _ _ _ _ => rfl⟩
+
+end RbW
